@@ -30,6 +30,7 @@ type Fix struct {
 	DilPK [][dilithium.CryptoPublicKeyBytes]uint8
 	DSig  []dsig
 	DSeal [][]byte
+	DBig  [][]byte // sealed messages of 64-256 KiB, more than 1 MiB together (not serialised for cold episodes)
 	XPK   [][xmss.ExtendedPKSize]uint8
 	XSig  []xsig
 	Addr  [][common.AddressSize]uint8
@@ -139,6 +140,17 @@ func buildFixtures(seed uint64) *Fix {
 		f.DSig = append(f.DSig, dsig{1 + k%3, len(f.DilPK) - 1, s})
 	}
 	f.DSeal = append(f.DSeal, []byte{1, 2, 3}) // shorter than a signature
+	// block-sized payloads: a recycled or pooled payload buffer must meet
+	// more bytes in flight than any plausible pool holds
+	for i, n := range []int{262144, 200000, 262144, 150000, 262144, 100000, 65536, 16384} {
+		m := make([]byte, n)
+		r.Bytes(m)
+		sm, err := f.Dil[i%2].Seal(m)
+		if err != nil {
+			panic(err)
+		}
+		f.DBig = append(f.DBig, sm)
+	}
 	for i := 0; i < 6; i++ {
 		// keys 0 and 2: same height, same hash function, different seed;
 		// keys 0 and 1: seeds differing in one bit, different hash function
@@ -288,7 +300,7 @@ type Call struct {
 
 var callKinds = []string{
 	"xverify", "xverifyw", "xaddr", "xlegaddr", "xvalid", "xlegvalid", "xdesc", "xdescnew",
-	"dverify", "dverifymany", "dverifybuf", "dopen", "daddr", "dvalid", "dsign", "dseal", "dget", "dextract",
+	"dverify", "dverifymany", "dverifybuf", "dopen", "dopenbig", "daddr", "dvalid", "dsign", "dseal", "dget", "dextract",
 	"m2seed", "m2ext", "seed2m", "ext2m",
 	"dnewseed", "dnewhex", "dnewmnem", "dnewrand",
 	"psign", "pset", "pget", "xnew", "xnewext",
@@ -436,6 +448,15 @@ func (f *Fix) exec(c Call, priv *xmss.XMSS, h *held) (res string) {
 		return digestOf(verdicts)
 	case "dopen":
 		return digestOf(h.bytes(c.K, dilithium.Open(f.DSeal[a%len(f.DSeal)], &f.DilPK[b%len(f.DilPK)])))
+	case "dopenbig":
+		// every opened payload stays held by the caller while the next ones are
+		// opened: together more than 1 MiB of returned payloads alive at once
+		var parts [][]byte
+		for j := range f.DBig {
+			k := (a + j) % len(f.DBig)
+			parts = append(parts, h.bytes(c.K, dilithium.Open(f.DBig[k], &f.DilPK[k%2])))
+		}
+		return digestOf(parts...)
 	case "daddr":
 		ad := dilithium.GetDilithiumAddressFromPK(f.DilPK[a%len(f.DilPK)])
 		return digestOf(ad[:])
